@@ -177,6 +177,50 @@ def run(ck: Check):
                 ck.disagree("applying the module twice to one tensor does not scale each path by the factor once",
                             dict(case, situation="applied twice"), signature={"layer": name.split("-")[0], "what": "gf-twice"})
             ck.count("gradfactor_consumer_checks", 2)
+    # convolutions: the gradient with respect to the INPUT against an independent reference - the per-window evaluation of the kernel
+    # tree (harness/c12.per_window, numpy, float64) differentiated by central differences (step 1e-5: the tree is a polynomial of degree <= 2^depth
+    # in a pixel that is wired several times, error ~1e-9) -
+    # at Boolean inputs (where a clamp or an abs would have a kink) and at interior points, soft and hard mode, with and without padding
+    from harness.c12 import make_layer, per_window
+    import numpy as _np
+    for rep in range(4 if ck.tier == "quick" else 16):
+        torch.manual_seed(ck.seed * 3 + rep)
+        l, geo = make_layer(rng, 2, param="raw")
+        if int(_np.prod(geo["in_dim"])) * geo["channels"] > 24:
+            continue
+        l = l.double().train()
+        tau = [0.5, 1.0, 2.0][rep % 3]
+        l.temperature = tau
+        shape = [geo["channels"]] + geo["in_dim"]
+        for mode in ("soft", "hard"):
+            l.forward_sampling = mode
+            for points in ("boolean", "interior"):
+                x = ((torch.rand(*shape) > 0.5).double() if points == "boolean" else torch.rand(*shape, dtype=torch.float64)).requires_grad_(True)
+                y = l(x.unsqueeze(0))[0]
+                up = torch.rand_like(y)
+                g, = torch.autograd.grad(y, [x], grad_outputs=up)
+                if mode == "soft":
+                    wts = [[w.detach().numpy() / tau for w in lv] for lv in l.tree_weights]
+                else:
+                    wts = [[_np.where(_np.arange(16)[None, :] == w.detach().numpy().argmax(-1)[:, None], 2000.0, 0.0) for w in lv] for lv in l.tree_weights]
+                upn = up.numpy().reshape(geo["kernels"], -1)
+                x0 = x.detach().numpy()
+
+                def fval(xv):
+                    return float((per_window(l, geo, xv, "soft", wts).reshape(geo["kernels"], -1) * upn).sum())
+                ref = _np.zeros_like(x0)
+                for idx in _np.ndindex(*x0.shape):
+                    xp_, xm_ = x0.copy(), x0.copy()
+                    xp_[idx] += 1e-5
+                    xm_[idx] -= 1e-5
+                    ref[idx] = (fval(xp_) - fval(xm_)) / 2e-5
+                case = dict(geo, layer="conv2d", mode=mode, tau=tau, inputs=points)
+                ck.case(case, nontrivial=True, kind="conv-input-grad")
+                err = float(_np.abs(g.numpy() - ref).max())
+                if not err <= 1e-6 * max(1.0, float(_np.abs(ref).max())):
+                    ck.disagree("gradient of a convolution with respect to its input differs from the derivative of the per-window relaxation",
+                                dict(case, max_abs_error=err, zero_entries_autograd=int((g == 0).sum()), zero_entries_reference=int((ref == 0).sum())),
+                                signature={"layer": "conv2d", "what": "input-grad", "mode": mode, "inputs": points})
     return ck.finish()
 
 
